@@ -122,6 +122,10 @@ func refCancel(o refOv) refOv {
 	return o
 }
 
+// operations applied to a key other than the tracked one ("~"): they must leave
+// the tracked key's reads and commits as the reference says
+var ledgerOpsAll = append(append([]string(nil), ledgerOps...), "F.Set~", "F.Get~", "F.Del~", "F.Cancel~", "M.Set~", "M.Get~", "M.Del~", "M.Cancel~", "Read~")
+
 var ledgerOps = []string{"F.Set", "F.Get", "F.Del", "F.Cancel", "M.Set", "M.Get", "M.Del", "M.Cancel", "Read", "Commit"}
 
 // canonical renaming of tags so that the explored space is finite
@@ -212,12 +216,59 @@ func (w *World) ledgerFunctions(r *Report) *ledgerFns {
 	return lf
 }
 
+type implOutcome struct {
+	st      ledgerState
+	res     opResult
+	choices []bool
+}
+
+// applyImplAll evaluates one operation for every answer to the nondeterministic
+// choices it meets (presence of an untracked key, container-size comparisons).
+// An operation name ending in "~" is applied to a key OTHER than the tracked one.
+func (w *World) applyImplAll(lf *ledgerFns, s ledgerState, op string, newTag int) ([]implOutcome, string) {
+	var out []implOutcome
+	work := [][]bool{nil}
+	for len(work) > 0 {
+		or := work[len(work)-1]
+		work = work[:len(work)-1]
+		ns, res, und, used := w.applyImpl(lf, s, op, newTag, or)
+		if und != "" {
+			return out, und
+		}
+		full := append([]bool(nil), or...)
+		for len(full) < used {
+			full = append(full, false)
+		}
+		out = append(out, implOutcome{ns, res, full})
+		for j := len(or); j < used; j++ {
+			alt := append(append([]bool(nil), full[:j]...), true)
+			work = append(work, alt)
+		}
+		if len(out) > 256 {
+			return out, "more than 256 nondeterministic outcomes of one operation"
+		}
+	}
+	return out, ""
+}
+
 // applyImpl evaluates one operation of the implementation on abstract state s.
-func (w *World) applyImpl(lf *ledgerFns, s ledgerState, op string, newTag int) (ledgerState, opResult, string) {
+func (w *World) applyImpl(lf *ledgerFns, s ledgerState, opName string, newTag int, oracle []bool) (ledgerState, opResult, string, int) {
+	ns, res, und, m := w.applyImpl1(lf, s, opName, newTag, oracle)
+	used := 0
+	if m != nil {
+		used = m.used
+	}
+	return ns, res, und, used
+}
+
+func (w *World) applyImpl1(lf *ledgerFns, s ledgerState, opName string, newTag int, oracle []bool) (ledgerState, opResult, string, *machine) {
 	m, err := newMachine(w, s, lf.fl, lf.sl, lf.mi)
 	if err != nil {
-		return s, opResult{}, err.Error()
+		return s, opResult{}, err.Error(), nil
 	}
+	m.oracle = oracle
+	other := strings.HasSuffix(opName, "~")
+	op := strings.TrimSuffix(opName, "~")
 	fn := lf.fn[op]
 	var recv aval = m.ledger
 	if strings.HasPrefix(op, "M.") || op == "Read" {
@@ -226,30 +277,36 @@ func (w *World) applyImpl(lf *ledgerFns, s ledgerState, op string, newTag int) (
 	var args []aval
 	switch op {
 	case "F.Set", "M.Set":
+		if other {
+			newTag = otherBase
+		}
 		args = []aval{recv, &aitem{tag: newTag}}
 	case "Commit":
 		args = []aval{recv}
 	default:
-		args = []aval{recv, aKey{true}}
+		args = []aval{recv, aKey{valid: true, other: other}}
 	}
 	res := m.run(fn, args, 0)
 	if m.undec != "" {
-		return s, opResult{}, m.undec
+		return s, opResult{}, m.undec, m
 	}
 	ns, e := m.state()
 	if e != nil {
-		return s, opResult{}, e.Error()
+		return s, opResult{}, e.Error(), m
 	}
 	// object identity: callers mutate ledger items in place, so an item object
 	// must never be held by both overlays
 	if a := m.sharedObject(); a != "" {
-		return ns, opResult{err: true, tag: -77}, "ALIAS:" + a
+		return ns, opResult{err: true, tag: -77}, "ALIAS:" + a, m
 	}
 	var out opResult
+	if other {
+		return ns, out, "", m // what an operation answers for another key is not constrained here
+	}
 	switch op {
 	case "F.Set", "M.Set":
 		if len(res) != 1 {
-			return s, out, "unexpected result arity"
+			return s, out, "unexpected result arity", m
 		}
 		if !isNilA(res[0]) {
 			out.err = true
@@ -258,14 +315,14 @@ func (w *World) applyImpl(lf *ledgerFns, s ledgerState, op string, newTag int) (
 		}
 	case "F.Cancel", "M.Cancel":
 		if len(res) != 1 {
-			return s, out, "unexpected result arity"
+			return s, out, "unexpected result arity", m
 		}
 		if !isNilA(res[0]) {
 			out.err = true
 		}
 	case "Commit":
 		if len(res) != 3 {
-			return s, out, "unexpected result arity"
+			return s, out, "unexpected result arity", m
 		}
 		if !isNilA(res[2]) {
 			out.err = true
@@ -274,23 +331,23 @@ func (w *World) applyImpl(lf *ledgerFns, s ledgerState, op string, newTag int) (
 		}
 	default:
 		if len(res) != 2 {
-			return s, out, "unexpected result arity"
+			return s, out, "unexpected result arity", m
 		}
 		if e, isErr := res[1].(aErr); isErr {
 			if e.kind != "notfound" {
 				out.err = true
 			}
 		} else if !isNilA(res[1]) {
-			return s, out, fmt.Sprintf("error result outside the domain: %T", res[1])
+			return s, out, fmt.Sprintf("error result outside the domain: %T", res[1]), m
 		} else {
 			it, ok := res[0].(*aitem)
 			if !ok {
-				return s, out, fmt.Sprintf("nil error with a %T item", res[0])
+				return s, out, fmt.Sprintf("nil error with a %T item", res[0]), m
 			}
 			out = opResult{found: true, tag: it.tag}
 		}
 	}
-	return ns, out, ""
+	return ns, out, "", m
 }
 
 type pairState struct {
@@ -316,7 +373,7 @@ func l1(w *World, r *Report) {
 		seen[p] = true
 		queue = append(queue, node{p, nil})
 	}
-	transitions, nStates := 0, 0
+	transitions, nStates, nOther := 0, 0, 0
 	var sampleTraces [][]string
 	for len(queue) > 0 {
 		n := queue[0]
@@ -326,50 +383,74 @@ func l1(w *World, r *Report) {
 			r.Undecided("L-1", "exploration", "abstract state space does not close within 200000 states")
 			return
 		}
-		for _, op := range ledgerOps {
+		for _, op := range ledgerOpsAll {
 			nt := maxTag(n.p.i, n.p.r) + 1
-			ni, ires, und := w.applyImpl(lf, n.p.i, op, nt)
-			trace := append(append([]string(nil), n.trace...), op)
+			outs, und := w.applyImplAll(lf, n.p.i, op, nt)
 			if strings.HasPrefix(und, "ALIAS:") {
-				r.Violate("L-1", "overlay-object-sharing", fmt.Sprintf("after %v the consensus overlay and the mempool overlay hold the SAME item object (%s): controllers mutate items in place, so a CheckTx would change what block execution commits (and vice versa)", trace, strings.TrimPrefix(und, "ALIAS:")), map[string]interface{}{"trace": trace}, fnSite(w, lf.fn[op]))
+				trace := append(append([]string(nil), n.trace...), op)
+				r.Violate("L-1", "overlay-object-sharing", fmt.Sprintf("after %v the consensus overlay and the mempool overlay hold the SAME item object (%s): controllers mutate items in place, so a CheckTx would change what block execution commits (and vice versa)", trace, strings.TrimPrefix(und, "ALIAS:")), map[string]interface{}{"trace": trace}, fnSite(w, lf.fn[strings.TrimSuffix(op, "~")]))
 				return
 			}
 			if und != "" {
-				r.Undecided("L-1", "exploration", fmt.Sprintf("the ledger code left the abstract domain after %v: %s", trace, und), fnSite(w, lf.fn[op]))
+				trace := append(append([]string(nil), n.trace...), op)
+				r.Undecided("L-1", "exploration", fmt.Sprintf("the ledger code left the abstract domain after %v: %s", trace, und), fnSite(w, lf.fn[strings.TrimSuffix(op, "~")]))
 				return
 			}
-			nr, rres := refApply(n.p.r, op, nt)
-			transitions++
-			if ires != rres {
-				r.Violate("L-1", "overlay-semantics", fmt.Sprintf("after %v the ledger answers %s where an overlayed map answers %s (abstract state before the last operation: %s)", trace, ires, rres, n.p.i), map[string]interface{}{"trace": trace, "impl": ires.String(), "reference": rres.String()}, fnSite(w, lf.fn[op]))
-				return
-			}
-			if op == "Commit" {
-				if ni.tree != nr.committed {
-					r.Violate("L-1", "commit-net-effect", fmt.Sprintf("after %v the tree holds %d where the consensus overlay's net effect is %d", trace, ni.tree, nr.committed), map[string]interface{}{"trace": trace}, fnSite(w, lf.fn[op]))
+			for _, oc := range outs {
+				ni, ires := oc.st, oc.res
+				opLabel := op
+				if len(oc.choices) > 0 {
+					opLabel = fmt.Sprintf("%s%v", op, oc.choices)
+				}
+				trace := append(append([]string(nil), n.trace...), opLabel)
+				op := strings.TrimSuffix(op, "~")
+				if strings.HasSuffix(opLabel, "~") || strings.Contains(opLabel, "~[") {
+					// an operation on ANOTHER key: the reference state of the tracked key is
+					// unchanged; whatever the implementation did to the tracked key's
+					// abstract state is explored further
+					nOther++
+					ci, cr := canonPair(ni, n.p.r)
+					p := pairState{ci, cr}
+					if !seen[p] {
+						seen[p] = true
+						queue = append(queue, node{p, trace})
+					}
+					continue
+				}
+				nr, rres := refApply(n.p.r, op, nt)
+				transitions++
+				if ires != rres {
+					r.Violate("L-1", "overlay-semantics", fmt.Sprintf("after %v the ledger answers %s where an overlayed map answers %s (abstract state before the last operation: %s)", trace, ires, rres, n.p.i), map[string]interface{}{"trace": trace, "impl": ires.String(), "reference": rres.String()}, fnSite(w, lf.fn[op]))
 					return
 				}
-				if ni.mem != (overlay{-1, -1, 0}) || ni.fin.upd != -1 || ni.fin.rem != 0 {
-					r.Violate("L-1", "commit-clears-overlays", fmt.Sprintf("after %v pending overlay state survives the commit: %s", trace, ni), map[string]interface{}{"trace": trace}, fnSite(w, lf.fn[op]))
-					return
+				if op == "Commit" {
+					if ni.tree != nr.committed {
+						r.Violate("L-1", "commit-net-effect", fmt.Sprintf("after %v the tree holds %d where the consensus overlay's net effect is %d", trace, ni.tree, nr.committed), map[string]interface{}{"trace": trace}, fnSite(w, lf.fn[op]))
+						return
+					}
+					if ni.mem != (overlay{-1, -1, 0}) || ni.fin.upd != -1 || ni.fin.rem != 0 {
+						r.Violate("L-1", "commit-clears-overlays", fmt.Sprintf("after %v pending overlay state survives the commit: %s", trace, ni), map[string]interface{}{"trace": trace}, fnSite(w, lf.fn[op]))
+						return
+					}
 				}
-			}
-			ci, cr := canonPair(ni, nr)
-			p := pairState{ci, cr}
-			if !seen[p] {
-				seen[p] = true
-				queue = append(queue, node{p, trace})
-				if len(sampleTraces) < 12 && len(trace) >= 3 {
-					sampleTraces = append(sampleTraces, trace)
+				ci, cr := canonPair(ni, nr)
+				p := pairState{ci, cr}
+				if !seen[p] {
+					seen[p] = true
+					queue = append(queue, node{p, trace})
+					if len(sampleTraces) < 12 && len(trace) >= 3 {
+						sampleTraces = append(sampleTraces, trace)
+					}
 				}
 			}
 		}
 	}
+	r.Extra["l1_other_key_transitions"] = nOther
 	r.Extra["l1_abstract_states"] = nStates
 	r.Extra["l1_transitions"] = transitions
 	r.Extra["l1_sample_traces"] = sampleTraces
 	r.Extra["exhaustive_over_abstract_domain"] = true
-	r.OK("L-1", "overlay-semantics", fmt.Sprintf("all %d reachable abstract states x %d operations (%d transitions) agree with the overlayed-map reference: reads, commit net effect, overlay clearing, mempool isolation", nStates, len(ledgerOps), transitions), "ledger/finality_ledger.go", "ledger/simple_ledger.go", "ledger/mem_items.go")
+	r.OK("L-1", "overlay-semantics", fmt.Sprintf("all %d reachable abstract states x %d operations (%d transitions) agree with the overlayed-map reference: reads, commit net effect, overlay clearing, mempool isolation; %d further transitions apply the operations to a key other than the tracked one (present or absent in each container, container sizes unconstrained) and leave the tracked key's answers as the reference says", nStates, len(ledgerOps), transitions, nOther), "ledger/finality_ledger.go", "ledger/simple_ledger.go", "ledger/mem_items.go")
 	if nStates < 20 {
 		r.Undecided("L-1", "exploration-size", fmt.Sprintf("only %d abstract states explored (floor 20): the exploration is vacuous", nStates))
 	} else {
